@@ -9,7 +9,9 @@ def nchars(s):
 inst = ""
 for tag, lit in strings:
     for which, fn in (("arr", "pad_block_array"), ("obj", "pad_block_object")):
-        tier = "" if (which == "arr" or tag in ("e2e2", "ae4")) else " tier=thorough"
+        # all instances are quick-tier: the object form used to have only e2e2 / ae4 in quick (for
+        # speed), and a seeded change to the object form was caught only thanks to those two
+        tier = ""
         inst += '''    //@harness name=pad_%s_%s props=C19,C18 strength=bounded bound="s = '%s' (concrete), fw in 0..=8 and the '-' flag symbolic, previous output 'xy'" clause="padded field = s plus max(0, fw - chars(s)) spaces on the correct side; never shorter than fw characters" timeout=600 replay=fmt_pad:%s:%s%s
     pad_inst!(pad_%s_%s, %s, "%s", %d);
 ''' % (which, tag, lit.replace("\\", ""), which, tag, tier, which, tag, fn, lit, nchars(lit))
